@@ -7,3 +7,4 @@ import UtapModel.Props.C18
 import UtapModel.Props.C18Float
 import UtapModel.Gen.PrinterWitness
 import UtapModel.Props.C07Subst
+import UtapModel.Props.C04Rate
